@@ -1183,13 +1183,26 @@ func (root *Root) AddEvent(id string, event interface{}) (cnt int, err error) {
 }
 
 func (root *Root) assureSchema() {
-	if root.schema == nil {
-		root.schema = &Schema{Object: Object{fields: fieldList{dict: map[string]*FieldDef{}}}}
-		for _, cap := range []string{"Query", "Mutation", "Subscription"} {
-			if t := root.types.get(cap); t != nil {
-				name := strings.ToLower(cap)
-				_ = root.schema.fields.add(&FieldDef{Base: Base{N: name}, Type: t})
-			}
+	if root.schema != nil && root.types.get(root.schema.N) == Type(root.schema) {
+		// Defined with a schema block.
+		return
+	}
+	// The schema is derived from the type names. Types can be added with
+	// later calls to parse so check again after each. A new schema is built
+	// instead of adding to the current one so that a failed parse can be
+	// reverted.
+	schema := &Schema{Object: Object{fields: fieldList{dict: map[string]*FieldDef{}}}}
+	if root.schema != nil {
+		schema.Object.Base = root.schema.Object.Base
+		schema.fields = root.schema.fields.dup()
+	}
+	for _, cap := range []string{"Query", "Mutation", "Subscription"} {
+		name := strings.ToLower(cap)
+		if t := root.types.get(cap); t != nil && schema.fields.get(name) == nil {
+			_ = schema.fields.add(&FieldDef{Base: Base{N: name}, Type: t})
 		}
+	}
+	if root.schema == nil || len(schema.fields.list) != len(root.schema.fields.list) {
+		root.schema = schema
 	}
 }
